@@ -65,6 +65,8 @@ def templates(tier, seed=0):
     for idx, pat in enumerate(fpats):
         ns = names_of(pat); prints = ['    print(%s)' % n for n in ns] or ['    print(1)']
         ts.append({'name': 'for-target-%d' % idx, 'src': '\n'.join(['s := @h0@'] + sel_ladder('src', 's', fsrcs) + ['for %s in src {' % pat] + prints + ['}', 'print(9)']) + '\n', 'assume': lambda v: [v['h0'] >= 0, v['h0'] < len(fsrcs)]})
+    # the right-hand side is evaluated completely before anything is bound
+    ts.append({'name': 'swap', 'src': 'a := @h10@\nb := @h11@\n[a, b] = [b, a]\nprint(a)\nprint(b)\ncur := 0\nnext := 1\ni := 0\nwhile i < 5 {\n    [cur, next] = [next, cur + next]\n    i += 1\n}\nprint(cur)\nxs := [@h12@, 2, @h13@]\n[xs[0], xs[2]] = [xs[2], xs[0]]\nprint(xs)\nn := @h14@\n{\n    [n, m] := [n + 1, n]\n    print(n)\n    print(m)\n}\no := {"p": 1, "q": 2}\n{"p": o.q, "q": o.p} = o\nprint(o)\n[c, [d, e]] := [1, [2, 3]]\n[c, [d, e]] = [e, [c, d]]\nprint([c, d, e])\n', 'assume': lambda v: [v['h14'] < 100, v['h14'] > -100]})
     # inverse laws, stated in Seed
     flat = flat_sources(maxn); n = len(flat); a_n = (lambda n: (lambda v: [v['h0'] >= 0, v['h0'] < n, v['h1'] >= 0, v['h1'] < n]))(n)
     flat2 = [f.replace('@h1', '@h2') for f in flat]
